@@ -168,6 +168,23 @@ fn main() {
         println!("F25: insert with an empty key refused = {rejected}, session still usable = {next_ok}, database opens afterwards = {reopen_ok}");
         let _ = std::fs::remove_dir_all(dir);
     }
+    // F26: a panic in user code inside a single-writer transaction poisoned the single-writer mutex:
+    // every later write_tx() panicked
+    {
+        let dir = std::path::PathBuf::from("/dev/shm/verif-scratch-f26");
+        let _ = std::fs::remove_dir_all(&dir);
+        let prev = std::panic::take_hook();
+        std::panic::set_hook(Box::new(|_| {}));
+        let db = fjall::SingleWriterTxDatabase::builder(&dir).open().unwrap();
+        let ks = db.keyspace("a", KeyspaceCreateOptions::default).unwrap();
+        ks.insert("k", "v").unwrap();
+        let _ = std::panic::catch_unwind(std::panic::AssertUnwindSafe(|| { let mut tx = db.write_tx(); tx.insert(&ks, "k", "changed"); let _ = tx.fetch_update(&ks, "k", |_| panic!("user code")); }));
+        let unchanged = ks.get("k").unwrap().map(|v| v.to_vec()) == Some(b"v".to_vec());
+        let next = matches!(std::panic::catch_unwind(std::panic::AssertUnwindSafe(|| { let mut tx = db.write_tx(); tx.insert(&ks, "k2", "v2"); tx.commit().is_ok() })), Ok(true));
+        std::panic::set_hook(prev);
+        println!("F26: transaction dropped by a panic left the data unchanged = {unchanged}, next write transaction works = {next}");
+        drop(ks); drop(db); let _ = std::fs::remove_dir_all(dir);
+    }
     // F12: version marker absent on an existing database whose first journal was already reclaimed
     {
         let dir = std::path::PathBuf::from("/dev/shm/verif-scratch-f12");
